@@ -152,7 +152,7 @@ def gen_record(rng, api):
     cplx = rng.randint(0, 1)
     S = rng.choice([1, 10, 100])
     vmax = 300
-    style = rng.choice(["lin", "lin", "log", "uneven", "lastodd"])
+    style = rng.choice(["lin", "lin", "log", "uneven", "lastodd", "slip"])
     t0 = rng.choice([0, 0, 17, 1000])
     iv = rng.choice([1, 2, 10, 500])
     if style == "lin":
@@ -166,6 +166,10 @@ def gen_record(rng, api):
         for k in range(T):
             ts.append(cur)
             cur += iv * rng.randint(1, 3)
+    elif style == "slip":       # long intervals, one of them longer by a single step: unevenly spaced, however close
+        big = rng.choice([100000, 250000, 1000000])
+        at = rng.randint(1, max(1, T - 1))
+        ts = [t0 + big * k + (1 if k >= at else 0) for k in range(T)]
     else:
         ts = [t0 + iv * k for k in range(T)]
         ts[-1] += iv
